@@ -126,7 +126,8 @@ def run(ctx):
                 "valid traffic truncated at every offset and with single-byte corruptions, random bytes, random frame mixes; "
                 "each followed by end of stream or silence; 4 calls of recv/recv_data/recv_data_frame/recv_frame. "
                 "handshake phase: response heads (status lines over a small alphabet, corrupted/truncated valid heads, "
-                "Content-Length cases). non-trivial = non-empty stream")
+                "Content-Length cases). transport glue: `_socket.recv` / `_socket.send` over the whole product {blocking, non-blocking} x "
+                "first transport outcome x select ready/empty x second outcome. non-trivial = non-empty stream")
     run_frames(ctx)
     try:
         from props import c17_head
@@ -134,6 +135,8 @@ def run(ctx):
         c17_head = None
     if c17_head is not None:
         c17_head.run_head(ctx)
+    from props import c17_glue
+    c17_glue.run_glue(ctx)
 
 
 def search(ctx):
